@@ -171,8 +171,11 @@ func factsC19() {
 				}
 			}
 		}
-		boolFact(g, "txWaitBeforeWrite", iWait == 0 && nWait == 1 && evs[iWait].depth == 0 && writes >= 1 && allAfter,
-			"send: the first statement is the single unconditional sb.valve.txWait(...); every conn.Write comes after it")
+		okPro, turnstile := sendPrologue(send)
+		boolFact(g, "txWaitBeforeWrite", okPro && iWait >= 0 && nWait == 1 && evs[iWait].depth == 0 && writes >= 1 && allAfter,
+			"send: begins with the single unconditional sb.valve.txWait(...), bare or inside the one-at-a-time turnstile; every conn.Write comes after it")
+		boolFact(g, "txWaitOneAtATime", okPro && turnstile,
+			"send: sb.txTurn <- struct{}{}; if broken { <-sb.txTurn; return }; sb.valve.txWait(len(data)); <-sb.txTurn - a channel of capacity 1 made in makeSwitchboard, touched nowhere else in send")
 		boolFact(g, "txWaitArgIsLen", iWait >= 0 && evs[iWait].text == "sb.valve.txWait(len(data))" && argsOK,
 			"send: txWait(len(data)) and the bytes written are exactly `data`")
 		iAdd := idx(evs, 0, "call", `^sb\.valve\.AddTx\(int64\(n\)\)$`)
